@@ -1,7 +1,21 @@
+import PPLV.Props.C05
 import PPLV.Lattice.ProofsRedRow
 import PPLV.Lattice.ProofsRedSem
+import PPLV.Lattice.ProofsRedBridge
+import PPLV.Lattice.ProofsRedNorm
+import PPLV.Lattice.ProofsRedCgLoop
+import PPLV.Lattice.ProofsRedCgTri
+import PPLV.Lattice.ProofsRedCgComplete
+import PPLV.Lattice.ProofsRedCgStepSol
+import PPLV.Lattice.ProofsRedK2
+import PPLV.Lattice.ProofsRedGenEnd
+import PPLV.Lattice.ProofsRedGenTri
+import PPLV.Lattice.ProofsRedGenConv
 import PPLV.Lattice.ProofsConvGCCert
 import PPLV.Lattice.ProofsConvCGCert
+import PPLV.Lattice.ProofsConvGCComplete
+import PPLV.Lattice.ProofsConvGCCertB
+import PPLV.Lattice.ProofsConvGCTri
 
 /-!
 # C05, stage 2 — Grid's own algorithms: `Grid::simplify` (both overloads), `Grid::conversion` (both directions)
@@ -10,16 +24,20 @@ Property statements only.  The code-shaped models are `PPLV/Lattice/Reduce.lean`
 `reduce_reduced` of Grid_templates.hh) and `PPLV/Lattice/Convert.lean` (Grid_conversion.cc,
 `normalize_divisors`); the denotations are in `PPLV/Lattice/RedSem.lean` / `ProofsRedSem.lean`:
 
-* a congruence row `(e, m)` denotes the K2 congruence `Σ e[i+1]·xᵢ + e[0] ≡ 0 (mod m)`; `cgsSem n rows` is
-  `CgSys.sem n` of these (the semantics of `PPLV/Props/C05.lean`);
+* a congruence row `(e, m)` denotes the K2 congruence `Σ e[i+1]·xᵢ + e[0] ≡ 0 (mod m)` (`CRow.toCg`); `cgsSem n rows`
+  is `CgSys.sem n` of these, i.e. the semantics `cgSysSet` of `PPLV/Props/C05.lean`; `Sol rows x` is the same without
+  the support condition (`Sol_iff_toCg`);
 * a generator system denotes, in homogeneous coordinates (columns `0..n`), `Hom n rows` = ℤ-span of the
-  parameter/point rows + ℚ-span of the line rows; the grid is `{x | (D, D·x) ∈ Hom}` (`gensSem n D`).
+  parameter/point rows + ℚ-span of the line rows; the grid is `{x | (D, D·x) ∈ Hom}`; on a system whose divisors are
+  normalised this is K2's `Gen.sem` of the PPL reading `gensOf` (`gensOf_hom`).
 
 The driver `pplv_gridred` replays these models on the journalled inputs of the real functions and demands
 identical rows, and evaluates the conclusions below on the real outputs with the K2 deciders.
 -/
 namespace C05
 open PPLV.Lattice PPLV.Lattice.Red
+
+/-! ## arithmetic -/
 
 /-- the model of `gcdext_assign` (`mpz_gcdext`) returns the gcd and a Bézout pair -/
 theorem gcdext_bezout (a b : Int) (hb : b ≠ 0) :
@@ -28,5 +46,313 @@ theorem gcdext_bezout (a b : Int) (hb : b ≠ 0) :
 
 /-- GMP's choice on `gcdext(6, 4)`: `2 = 1·6 + (-1)·4` -/
 example : gcdext 6 4 = (2, 1, -1) := by decide +kernel
+
+/-! ## the two readings of a generator system; `normalize_divisors` -/
+
+/-- on a system normalised with divisor `D` the homogeneous lattice and the PPL reading (K2's `Gen.sem`) agree -/
+theorem gensOf_hom (n : Nat) (D : Int) (rows : List GRow) (h : GNorm n D rows) :
+    ∃ G, gensOf n rows = some G ∧ ∀ x, x ∈ gridSet G ↔ Hom n rows (homog (D : ℚ) x) :=
+  gensOf_gnorm n D rows h
+
+/-- the point `(1/2)` and the parameter `(3/2)`: rows `(2;1|0)`, `(0;3|2)` -/
+example : GNorm 1 2 [{ line := false, e := [2, 1, 0] }, { line := false, e := [0, 3, 2] }] where
+  pos := by decide
+  pt := ⟨_, List.mem_cons_self, rfl, rfl⟩
+  col0 := by intro r hr _; simp at hr; rcases hr with rfl | rfl <;> simp [Red.get]
+  par := by intro r hr _ h0; simp at hr; rcases hr with rfl | rfl <;> simp_all [Red.get]
+  lin := by intro r hr hl; simp at hr; rcases hr with rfl | rfl <;> simp_all
+
+/-- `Grid::normalize_divisors(sys, divisor)` does not change the PPL reading of the system -/
+theorem normalize_divisors_preserves (n : Nat) (rows : List GRow) (d : Int) (hs : GShape n rows) :
+    gensOf n (normalizeDivisors n rows d).1 = gensOf n rows :=
+  normalizeDivisors_gensOf n rows d hs
+
+/-- points `1/2` and `1/3`: the common divisor becomes 6 -/
+example : normalizeDivisors 1 [{ line := false, e := [2, 1, 0] }, { line := false, e := [3, 1, 0] }] 1
+    = ([{ line := false, e := [6, 3, 0] }, { line := false, e := [6, 2, 0] }], 6) := by decide +kernel
+
+/-! ## `Grid::simplify(Congruence_System&, Dimension_Kinds&)` -/
+
+/-- `Congruence_System::normalize_moduli` keeps the solution set -/
+theorem normalize_moduli_preserves (n : Nat) (rows : List CRow) (hwf : CWf n rows) (x : Pt) :
+    Sol (normalizeModuli rows) x ↔ Sol rows x := normalizeModuli_sol n rows hwf x
+
+/-- `reduce_equality_with_equality` on two equalities that vanish after column `dim` (the loop invariant) -/
+theorem reduce_equality_with_equality_preserves (rows : List CRow) (ri pi dim : Nat)
+    (hpi : pi < rows.length) (hne : pi ≠ ri)
+    (hl : (rowAt rows pi).e.length = (rowAt rows ri).e.length)
+    (hrm : (rowAt rows ri).m = 0) (hpm : (rowAt rows pi).m = 0)
+    (hrz : ∀ j, dim < j → get (rowAt rows ri).e j = 0) (hpz : ∀ j, dim < j → get (rowAt rows pi).e j = 0)
+    (hpc : get (rowAt rows pi).e dim ≠ 0) (x : Pt) :
+    Sol (rows.set ri (reduceEqualityWithEquality (rowAt rows ri) (rowAt rows pi) dim)) x ↔ Sol rows x :=
+  reduceEqualityWithEquality_sol rows ri pi dim hpi hne hl hrm hpm hrz hpz hpc x
+
+/-- `reduce_pc_with_pc` on two proper congruences with the same modulus: a unimodular row operation -/
+theorem reduce_pc_with_pc_congs_preserves (rows : List CRow) (ri pi dim : Nat)
+    (hri : ri < rows.length) (hpi : pi < rows.length) (hne : pi ≠ ri)
+    (hl : (rowAt rows pi).e.length = (rowAt rows ri).e.length)
+    (hmm : (rowAt rows pi).m = (rowAt rows ri).m)
+    (hrz : ∀ j, dim < j → get (rowAt rows ri).e j = 0) (hpz : ∀ j, dim < j → get (rowAt rows pi).e j = 0)
+    (hpc : get (rowAt rows pi).e dim ≠ 0) (hrc : get (rowAt rows ri).e dim ≠ 0) (x : Pt) :
+    Sol ((rows.set ri (reducePcWithPc (rowAt rows ri) (rowAt rows pi) dim 0 (dim + 1)).1).set pi
+      (reducePcWithPc (rowAt rows ri) (rowAt rows pi) dim 0 (dim + 1)).2) x ↔ Sol rows x :=
+  reducePcWithPc_sol rows ri pi dim hri hpi hne hl hmm hrz hpz hpc hrc x
+
+/-- `reduce_congruence_with_equality`: all proper congruences are scaled by one positive factor, then a multiple
+    of the equality is subtracted -/
+theorem reduce_congruence_with_equality_preserves (n : Nat) (sys : List CRow) (ri pi dim : Nat)
+    (hwf : RWf n sys) (hri : ri < sys.length) (hpi : pi < sys.length) (hne : pi ≠ ri)
+    (hpm : (rowAt sys pi).m = 0) (hrm : 0 < (rowAt sys ri).m)
+    (hpc : get (rowAt sys pi).e dim ≠ 0) (x : Pt) :
+    Sol (reduceCongruenceWithEquality sys ri pi dim) x ↔ Sol sys x :=
+  reduceCongruenceWithEquality_sol n sys ri pi dim hwf hri hpi hne hpm hrm hpc x
+
+/-- `reduce_reduced` (congruence instance): legitimate because `dim_kinds` records the kinds of the rows above the
+    pivot in order and the proper congruences share one modulus -/
+theorem reduce_reduced_congs_preserves (n : Nat) (dk : List Nat) (p : Nat → Nat) (k dim : Nat) (M : Int) (rows : List CRow)
+    (hK : KInv dk p k (dim + 1) (n + 1)) (hdk : dk.length = n + 1) (hk : k < rows.length) (hwf : RWf n rows)
+    (hkinds : ∀ i, i < k → KindOK (rowAt rows i) (kind dk (p i)))
+    (hpk : KindOK (rowAt rows k) (kind dk dim)) (hpz : ∀ j, dim < j → get (rowAt rows k).e j = 0)
+    (hmod : SameMod rows M) (x : Pt) :
+    Sol (reduceReduced rows dim k 0 dim dk false) x ↔ Sol rows x :=
+  reduceReduced_sol n dk p k dim M rows hK hdk hk hwf hkinds hpk hpz hmod x
+
+/-- **the whole loop**: a `false` flag means the returned system has the solutions of the input, a `true` flag
+    means the input has none (and conversely, `simplify_congs_flag_iff`) -/
+theorem simplify_congs_preserves (n : Nat) (rows : List CRow) (dk : List Nat) (hwf : CWf n rows) :
+    let r := simplifyCgs n rows dk
+    (r.2.2 = false → ∀ x, cgsSem n r.1 x ↔ cgsSem n rows x) ∧ (r.2.2 = true → ∀ x, ¬ cgsSem n rows x) :=
+  simplifyCgs_preserves n rows dk hwf
+
+/-- the emptiness flag is exact -/
+theorem simplify_congs_flag_iff (n : Nat) (rows : List CRow) (dk : List Nat) (hwf : CWf n rows) :
+    (simplifyCgs n rows dk).2.2 = true ↔ ∀ x, ¬ cgsSem n rows x :=
+  simplifyCgs_flag_iff n rows dk hwf
+
+/-- the result is in the triangular form described by `dim_kinds`: `Grid::lower_triangular` accepts it, and
+    (`Final`) every row is the pivot row of a strictly decreasing dimension, positive there, zero after it, its
+    kind recorded in `dim_kinds`; one shared modulus; the last row is the integrality congruence -/
+theorem simplify_congs_triangular (n : Nat) (rows : List CRow) (dk : List Nat) (hwf : CWf n rows) :
+    let r := simplifyCgs n rows dk
+    r.2.2 = false → lowerTriangular n r.1 r.2.1 = true ∧ Final n r.1 r.2.1 :=
+  fun hf => ⟨simplifyCgs_lowerTriangular n rows dk hwf hf, simplifyCgs_triangular n rows dk hwf hf⟩
+
+/-- `x ≡ 1 (mod 2)`, `x + y = 0`, `y ≡ 0 (mod 3)` -/
+example : CWf 2 exRows ∧ (simplifyCgs 2 exRows []).2.2 = false := by
+  refine ⟨?_, by decide +kernel⟩
+  intro r hr
+  simp only [exRows, List.mem_cons, List.not_mem_nil, or_false] at hr
+  rcases hr with rfl | rfl | rfl <;> exact ⟨rfl, by decide⟩
+/-- what the code computes on it -/
+example : simplifyCgs 2 exRows [] =
+    ([⟨[0, 1, 1], 0⟩, ⟨[3, 1, 0], 6⟩, ⟨[6, 0, 0], 6⟩], [0, 0, 2], false) := by decide +kernel
+/-- `x = 0`, `x = 1`: inconsistent -/
+example : (simplifyCgs 1 [⟨[0, 1], 0⟩, ⟨[-1, 1], 0⟩] []).2.2 = true := by decide +kernel
+
+/-- **K2 corollary**: the model's output, fed to K2's verified equality decider, is the input grid; a `true`
+    flag means K2's conversion of the input is empty -/
+theorem simplify_congs_k2 (n : Nat) (rows : List CRow) (dk : List Nat) (hwf : CWf n rows) :
+    let r := simplifyCgs n rows dk
+    (r.2.2 = false → equivB (consToGens n (cgsOf rows)) (consToGens n (cgsOf r.1)) = true) ∧
+    (r.2.2 = true → (consToGens n (cgsOf rows)).isEmpty = true) := by
+  intro r
+  obtain ⟨h1, h2⟩ := simplifyCgs_preserves n rows dk hwf
+  constructor
+  · intro hf
+    rw [equiv_iff, consToGens_spec, consToGens_spec]
+    ext x
+    exact (h1 hf x).symm
+  · intro ht
+    rw [isEmpty_iff, consToGens_spec]
+    ext x
+    simp only [cgSysSet, Set.mem_ofPred_eq, Set.mem_empty_iff_false, iff_false]
+    exact h2 ht x
+
+example : equivB (consToGens 2 (cgsOf exRows)) (consToGens 2 (cgsOf (simplifyCgs 2 exRows []).1)) = true := by
+  decide +kernel
+
+/-! ## `Grid::simplify(Grid_Generator_System&, Dimension_Kinds&)`
+
+`HomSim n rows rows'` (`ProofsRedGenBase.lean`) is `∃ k : ℤ, 0 < k ∧ ∀ v, Hom n rows v ↔ Hom n rows' (k • v)`: the
+homogeneous lattice is unchanged up to the positive integer factor by which `reduce_parameter_with_line` scales every
+parameter and point (the system divisor is scaled with it, so the grid `{x | (D, D·x) ∈ Hom}` is unchanged). -/
+
+/-- `reduce_line_with_line`: a line is replaced by a non-zero multiple of itself plus a multiple of the pivot line -/
+theorem reduce_line_with_line_preserves {n p dim ri : Nat} {rows : List GRow}
+    (hri : ri < rows.length) (hp : p < rows.length) (hne : ri ≠ p) (hle : p ≤ ri) (hwf : WfI n rows)
+    (hz : ZeroPre p dim rows) (hdim : dim ≤ n) (hpc : Red.get (rowAt rows p).e dim ≠ 0)
+    (hrl : (rowAt rows ri).line = true) (hpl : (rowAt rows p).line = true) :
+    HomSim n rows (rows.set ri (reduceLineWithLine (rowAt rows ri) (rowAt rows p) dim)) :=
+  reduceLineWithLine_homSim hri hp hne hle hwf hz hdim hpc hrl hpl
+
+/-- `reduce_pc_with_pc` on two parameter/point rows: a unimodular row operation (determinant 1 by Bézout) -/
+theorem reduce_pc_with_pc_gens_preserves {n p dim ri : Nat} {rows : List GRow}
+    (hri : ri < rows.length) (hp : p < rows.length) (hne : ri ≠ p) (hle : p ≤ ri) (hwf : WfI n rows)
+    (hz : ZeroPre p dim rows) (hdim : dim ≤ n) (hpc : Red.get (rowAt rows p).e dim ≠ 0)
+    (hrc : Red.get (rowAt rows ri).e dim ≠ 0)
+    (hrl : (rowAt rows ri).line = false) (hpl : (rowAt rows p).line = false) :
+    HomSim n rows ((rows.set ri (reducePcWithPc (rowAt rows ri) (rowAt rows p) dim dim (n + 1)).1).set p
+      (reducePcWithPc (rowAt rows ri) (rowAt rows p) dim dim (n + 1)).2) :=
+  reducePcWithPc_homSim hri hp hne hle hwf hz hdim hpc hrc hrl hpl
+
+/-- `reduce_parameter_with_line` (both branches): every parameter/point is scaled by `|pivot[dim]/gcd|`, then a
+    multiple of the line is subtracted -/
+theorem reduce_parameter_with_line_preserves {n p dim ri : Nat} {rows : List GRow}
+    (hri : ri < rows.length) (hp : p < rows.length) (hne : ri ≠ p) (hle : p ≤ ri) (hwf : WfI n rows)
+    (hz : ZeroPre p dim rows) (hdim : dim ≤ n) (hpc : Red.get (rowAt rows p).e dim ≠ 0)
+    (hrl : (rowAt rows ri).line = false) (hpl : (rowAt rows p).line = true) :
+    HomSim n rows (reduceParameterWithLine rows ri p dim (n + 1 + 1)) :=
+  reduceParameterWithLine_homSim hri hp hne hle hwf hz hdim hpc hrl hpl
+
+/-- `reduce_reduced` (generator instance) under the triangular invariant `Tri` of the rows above the pivot -/
+theorem reduce_reduced_gens_preserves {n p dim : Nat} {dk : List Nat} {rows : List GRow}
+    (hdim : dim ≤ n) (hp : p < rows.length) (hwf : WfI n rows)
+    (hz : ∀ c < dim, Red.get (rowAt rows p).e c = 0)
+    (hk : kind dk dim = LINE → (rowAt rows p).line = true) (ht : Tri dk rows dim p) :
+    HomSim n rows (reduceReduced rows dim p dim n dk) :=
+  reduceReduced_homSim hdim hp hwf hz hk ht
+
+/-- **the whole loop** keeps the homogeneous lattice up to the scaling factor -/
+theorem simplify_gens_preserves (n : Nat) (rows : List GRow) (dk : List Nat) (hwf : GWf n rows) :
+    ∃ k : ℤ, 0 < k ∧ ∀ v, Hom n rows v ↔ Hom n (simplifyGens n rows dk).1 ((k : ℚ) • v) :=
+  simplifyGens_preserves n rows dk hwf
+
+/-- the result is in the triangular form described by `dim_kinds`: `Grid::upper_triangular` accepts it; `Tri`: the
+    rows are, in order, the pivot rows of the non-virtual dimensions (positive diagonal, zeros before it, the kind is
+    `LINE` exactly for line rows); sizes are kept; parameters carry the divisor of the point -/
+theorem simplify_gens_triangular (n : Nat) (rows : List GRow) (dk : List Nat) (hwf : GWf n rows) :
+    upperTriangular n (simplifyGens n rows dk).1 (simplifyGens n rows dk).2 = true ∧
+    Tri (simplifyGens n rows dk).2 (simplifyGens n rows dk).1 (n + 1) (simplifyGens n rows dk).1.length ∧
+    GWf n (simplifyGens n rows dk).1 :=
+  ⟨simplifyGens_triangular n rows dk hwf, simplifyGens_tri n rows dk hwf, simplifyGens_wf n rows dk hwf⟩
+
+/-- the point `(1/2, 0)`, the line `(1, 1)`, the parameter `(3/2, 0)` -/
+example : GWf 2 exGRows ∧ simplifyGens 2 exGRows [] =
+    ([{ line := false, e := [2, 0, -1, 0] }, { line := true, e := [0, 1, 1, 0] }, { line := false, e := [0, 0, 3, 2] }],
+      [PARAMETER, LINE, PARAMETER]) := ⟨exRows_wf, by decide⟩
+
+theorem normalised_of_gnorm {n : Nat} {D : Int} {rows : List GRow} (h : GNorm n D rows) : Normalised n D rows :=
+  ⟨h.pos, h.col0, h.pt, h.par, h.lin⟩
+
+/-- on a system with normalised divisors the output is normalised with divisor `k·D` -/
+theorem simplify_gens_normalised (n : Nat) (D : Int) (rows : List GRow) (dk : List Nat) (hwf : GWf n rows)
+    (hN : GNorm n D rows) :
+    ∃ k : ℤ, 0 < k ∧ GNorm n (k * D) (simplifyGens n rows dk).1 ∧
+      ∀ v, Hom n rows v ↔ Hom n (simplifyGens n rows dk).1 ((k : ℚ) • v) := by
+  obtain ⟨k, hk, hN', hH⟩ := simplifyGens_normalised dk hwf (normalised_of_gnorm hN)
+  exact ⟨k, hk, ⟨hN'.Dpos, hN'.pt, hN'.pc, hN'.par, hN'.ln⟩, hH⟩
+
+/-- **K2 corollary**: the PPL reading of the model's output, fed to K2's verified equality decider, is the PPL reading
+    of the input -/
+theorem simplify_gens_k2 (n : Nat) (D : Int) (rows : List GRow) (dk : List Nat) (hwf : GWf n rows)
+    (hN : GNorm n D rows) :
+    ∃ G G', gensOf n rows = some G ∧ gensOf n (simplifyGens n rows dk).1 = some G' ∧ equivB G G' = true := by
+  obtain ⟨k, hk, hN', hH⟩ := simplify_gens_normalised n D rows dk hwf hN
+  exact equivB_of_homScaled n D (k * D) rows _ hN hN' k hk hH
+
+example : GNorm 2 2 exGRows :=
+  ⟨exRows_norm.Dpos, exRows_norm.pt, exRows_norm.pc, exRows_norm.par, exRows_norm.ln⟩
+
+/-! ## `Grid::conversion(Grid_Generator_System&, Congruence_System&, Dimension_Kinds&)`
+
+Hypotheses: the source is accepted by `Grid::upper_triangular` with these `dim_kinds` (`kind dk 0 = PARAMETER`: the
+point), every kind is one of the three enumerators (`KindsOK`), and the kinds agree with the line flags of the rows
+(`LinesAgree`, `ParamsAgree`) — all of them conclusions of `simplify_gens_triangular`. -/
+
+/-- `multiply_grid` (congruence instance) keeps the solution set -/
+theorem multiply_grid_congs_preserves (n : Nat) (mult : Int) (hm : 0 < mult) (T : List CRow) (r N : Nat)
+    (hN : T.length ≤ N) (x : Pt) : cgsSem n (multiplyGridCg mult T r N) x ↔ cgsSem n T x :=
+  multiplyGridCg_sem n mult hm T r N hN x
+
+/-- **generators → congruences is exact**: the produced system denotes the grid of the source -/
+theorem conversion_gens_to_congs_correct (n : Nat) (source : List GRow) (dk : List Nat) (hw : GWf n source)
+    (ht : upperTriangular n source dk = true) (hl : dk.length = n + 1) (h0 : kind dk 0 = PARAMETER)
+    (hk : KindsOK n dk) (hla : LinesAgree n source dk) (hpa : ParamsAgree n source dk) (x : Pt) :
+    cgsSem n (conversionGensToCgs n source dk) x ↔
+      Hom n source (homog ((Red.get (rowAt source 0).e 0 : Int) : ℚ) x) :=
+  conversionGensToCgs_exact n source dk hw ht hl h0 hk hla hpa x
+
+/-- the soundness half needs the agreement of the kinds for the lines only; the certificate checker accepts the
+    model's output -/
+theorem conversion_gens_to_congs_sound (n : Nat) (source : List GRow) (dk : List Nat) (hw : GWf n source)
+    (ht : upperTriangular n source dk = true) (hl : dk.length = n + 1) (h0 : kind dk 0 = PARAMETER)
+    (hk : KindsOK n dk) (hla : LinesAgree n source dk) :
+    gcCertB n source (conversionGensToCgs n source dk) = true ∧
+    ∀ x, Hom n source (homog ((Red.get (rowAt source 0).e 0 : Int) : ℚ) x) →
+      cgsSem n (conversionGensToCgs n source dk) x :=
+  ⟨conversionGensToCgs_cert n source dk ht hl h0 hk hla, conversionGensToCgs_sound n source dk hw ht hl h0 hk hla⟩
+
+/-- the produced system is accepted by `Grid::lower_triangular` (the assertion at the end of the function) -/
+theorem conversion_gens_to_congs_triangular (n : Nat) (source : List GRow) (dk : List Nat)
+    (ht : upperTriangular n source dk = true) (hl : dk.length = n + 1) (h0 : kind dk 0 = PARAMETER)
+    (hk : KindsOK n dk) : lowerTriangular n (conversionGensToCgs n source dk) dk = true :=
+  conversionGensToCgs_triangular n source dk ht hl h0 hk
+
+/-- point `1/2`, parameter `3/2`: the hypotheses hold -/
+example :
+    let source : List GRow := [{ line := false, e := [2, 1, 0] }, { line := false, e := [0, 3, 2] }]
+    let dk : List Nat := [PARAMETER, PARAMETER]
+    upperTriangular 1 source dk = true ∧ dk.length = 1 + 1 ∧ kind dk 0 = PARAMETER ∧ KindsOK 1 dk ∧
+      ParamsAgree 1 source dk := by
+  refine ⟨by decide, rfl, rfl, ?_, ?_⟩
+  · intro d hd
+    have : d = 0 ∨ d = 1 := by omega
+    rcases this with rfl | rfl <;> decide
+  · intro g _ _ d hd _ _
+    have : d = 0 ∨ d = 1 := by omega
+    rcases this with rfl | rfl <;> rfl
+
+/-- **K2 form** (certified): a normalised source accepted by the checker is included, by K2's verified inclusion
+    decider, in the K2 grid of the produced congruences -/
+theorem conversion_gens_to_congs_k2 (n : Nat) (D : Int) (source : List GRow) (dk : List Nat) (hn : GNorm n D source)
+    (hw : GWf n source) (ht : upperTriangular n source dk = true) (hl : dk.length = n + 1)
+    (h0 : kind dk 0 = PARAMETER) (hk : KindsOK n dk) (hla : LinesAgree n source dk)
+    (hlen : ∀ c ∈ conversionGensToCgs n source dk, c.e.length = n + 1) :
+    ∃ G, gensOf n source = some G ∧ subsetB G (consToGens n (cgsOf (conversionGensToCgs n source dk))) = true :=
+  gcCert_subsetB n D source _ hn hw hlen (conversionGensToCgs_cert n source dk ht hl h0 hk hla)
+
+/-- **end to end (what `Grid::update_congruences` does): simplify, then convert.**  On a generator system with
+    normalised divisors the congruences produced by the two models denote exactly the grid of the input … -/
+theorem simplify_conversion_gens_correct (n : Nat) (D : Int) (rows : List GRow) (dk : List Nat) (hwf : GWf n rows)
+    (hN : GNorm n D rows) (x : Pt) :
+    cgsSem n (conversionGensToCgs n (simplifyGens n rows dk).1 (simplifyGens n rows dk).2) x ↔
+      Hom n rows (homog (D : ℚ) x) :=
+  simplifyGens_conversion_exact dk hwf (normalised_of_gnorm hN) x
+
+/-- … K2's verified equality decider accepts them against the PPL reading of the input, and they are in the
+    triangular form `Grid::lower_triangular` asserts -/
+theorem simplify_conversion_gens_k2 (n : Nat) (D : Int) (rows : List GRow) (dk : List Nat) (hwf : GWf n rows)
+    (hN : GNorm n D rows) :
+    (∃ G, gensOf n rows = some G ∧
+      equivB G (consToGens n (cgsOf (conversionGensToCgs n (simplifyGens n rows dk).1 (simplifyGens n rows dk).2))) = true) ∧
+    lowerTriangular n (conversionGensToCgs n (simplifyGens n rows dk).1 (simplifyGens n rows dk).2)
+      (simplifyGens n rows dk).2 = true :=
+  ⟨simplifyGens_conversion_k2 dk hwf (normalised_of_gnorm hN), simplifyGens_conversion_triangular dk hwf (normalised_of_gnorm hN)⟩
+
+/-- on the instance above: `x₀ - x₁ ≡ 1/2 (mod 3/2)` in the form the library prints it -/
+example : conversionGensToCgs 2 (simplifyGens 2 exGRows []).1 (simplifyGens 2 exGRows []).2 =
+    [{ e := [1, -2, 2], m := 3 }, { e := [3, 0, 0], m := 3 }] := by decide +kernel
+
+/-! ## `Grid::conversion`: certificates (evaluated by the driver on every real output) -/
+
+/-- generators → congruences: when the checker `gcCertB` accepts (every source generator against every produced
+    congruence, in homogeneous coordinates), every point of the source grid satisfies the produced system -/
+theorem conversion_gens_to_congs_certified (n : Nat) (source : List GRow) (dest : List CRow) (hw : GWf n source)
+    (hlen : ∀ c ∈ dest, c.e.length = n + 1) (h : gcCertB n source dest = true) (x : Pt)
+    (hx : Hom n source (homog ((get (rowAt source 0).e 0 : Int) : ℚ) x)) : cgsSem n dest x :=
+  gcCert_sound n source dest hw hlen h x hx
+
+/-- congruences → generators: when the checker `cgCertB` accepts, every produced point satisfies the source system -/
+theorem conversion_congs_to_gens_certified (n : Nat) (source : List CRow) (dest : List GRow) (hw : GWf n dest)
+    (hc : CWf n source) (h : cgCertB n source dest = true) (x : Pt)
+    (hx : Hom n dest (homog ((get (rowAt dest 0).e 0 : Int) : ℚ) x)) : cgsSem n source x :=
+  cgCert_sound n source dest hw hc h x hx
+
+/-- the conversion of the point `1/2`, parameter `3/2` is accepted: `2x - 1 ≡ 0 (mod 3)` -/
+example : conversionGensToCgs 1 [{ line := false, e := [2, 1, 0] }, { line := false, e := [0, 3, 2] }] [0, 0]
+      = [{ e := [-1, 2], m := 3 }, { e := [3, 0], m := 3 }] ∧
+    gcCertB 1 [{ line := false, e := [2, 1, 0] }, { line := false, e := [0, 3, 2] }]
+      [{ e := [-1, 2], m := 3 }, { e := [3, 0], m := 3 }] = true := by
+  constructor <;> decide +kernel
 
 end C05
